@@ -219,7 +219,9 @@ func (d *driver) run(offer func(net.Conn) bool) {
 		h.StepOff[i] = -1
 		h.StepEnd[i] = -1
 	}
-	d.park(d.sc.DialAt)
+	// always move to an instant of this driver's own class first: several
+	// connections dialling "at 0" must not race for the listener's queue
+	sleepClass(d.class, d.sc.DialAt)
 	h.Offered = offer(nil)
 	if !h.Offered {
 		d.raw.Close()
